@@ -22,12 +22,33 @@ N_PROGRAMS = len(PROGRAMS)  # 40
 # sign change, kink, smooth profiles, exact zeros on a half plane, negative-valued, strongly peaked
 IT_PROGRAMS = ["aff:0:0:2", "aff:0:0:-1", "aff:0:0:0", "aff:2:2:2", "aff:-1:2:0", "yx", "absx", "gauss", "gaussn",
                "relux", "relud", "negq", "peak", "sincos"]
+# programs whose BINNED value in a pixel changes sign from one sub-size level to the next. They are placed relative to the
+# pixel centres of the case (parameters cy, cx, sy, sx, top, left, h, w are added to the function parameters by run_I).
+# With c_s = 1 - 1/s^2 (c_1 = 0, c_2 = .75, c_3 = .8889, c_4 = .9375, c_5 = .96, c_8 = .984) and Q = (sy^2 + sx^2)/12 the
+# exact mean of r^2 (r = distance to the pixel's centre) over the s x s partition of the pixel is Q*c_s, so
+#   cap:a:A  = A*(a - r^2/Q)   has level values A*(a - c_s) in the target pixel (positive at level 1, decreasing in s) and
+#   bowl:a:A = -cap:a:A        the opposite sign order (negative at level 1, increasing).
+# a between c_s and c_s' puts the sign change between levels s and s'; the closer a to their midpoint the closer the
+# MAGNITUDE ratio min(|prev|,|cur|)/max(|prev|,|cur|) to 1, while the ratio of the statement (smaller / larger value,
+# previous value positive) is negative there and meets no accuracy. Menu = sign change at the first / second comparison of
+# each schedule with magnitude ratio below .5, in [.5,.99), [.99,.9999), >= .9999, |prev| < |cur| and |prev| > |cur|,
+# amplitude 1 (absolute differences >> 0.01) and 0.01 (absolute differences < 0.01 = the tolerance of the menu).
+#   cosb:b   = cos(1.6 pi (y-cy)/sy) cos(1.6 pi (x-cx)/sx) - b   (level values 1-b, .0955-b, .0695-b, .0625-b, .0595-b, .0565-b
+#              for s = 1,2,3,4,5,8 in the target pixel; other phases of the same wave in the other pixels)
+#   cell:r   = in EVERY cell (iy,ix) of the frame its own cap/bowl around the cell's centre, entry (iy*w+ix+r) mod 12 of
+#              CELL_MENU - all pixels of the mask change sign at their own level / ratio in ONE call, so pixels that are
+#              accepted early sit next to sign-changing pixels that must carry on
+SIGN_SMOOTH = ["cap:0.3:1", "cap:0.376:1", "cap:0.85:0.01", "cap:0.9245:1", "bowl:0.3:1", "cosb:0.5", "cosb:0.08"]
+CELL_MENU = [(1, 0.3, 1.0), (1, 0.376, 1.0), (1, 0.37501, 1.0), (1, 0.445, 0.01), (1, 0.1, 1.0), (1, 0.844, 1.0),
+             (1, 0.85, 0.01), (1, 0.9245, 1.0), (-1, 0.3, 1.0), (-1, 0.85, 1.0), (1, 1.3, 1.0), (1, 0.6, 1.0)]
+SIGN_CELL = ["cell:0", "cell:6"]
+IT_PROGRAMS = IT_PROGRAMS + SIGN_SMOOTH + SIGN_CELL
 SCHEDULES = [[2, 4], [2, 4, 8], [3, 5, 2]]
 FRACS = [0.5, 0.99, 0.9999]
 TOLS = [None, 0.01]
 # histories on ONE iterative sampler / ONE grid: (f1, f2) -> f1, f2, f1 again. f1 converges at an intermediate sub-size in
 # some pixels (constants: in all), f2 runs to the last sub-size in some of them (and vice versa on the way back)
-HIST_PAIRS = [("aff:0:0:2", "gaussn"), ("gauss", "peak"), ("peak", "sincos"), ("relux", "gauss")]
+HIST_PAIRS = [("aff:0:0:2", "gaussn"), ("gauss", "peak"), ("peak", "sincos"), ("relux", "gauss"), ("cell:0", "peak")]
 HIST_CONFIGS = [([2, 4, 8], 0.99, None), ([2, 4, 8], 0.9999, None), ([3, 5, 2], 0.99, 0.01)]
 
 RULE = (
@@ -35,7 +56,10 @@ RULE = (
     "geometry menu (4 pixel-scale pairs x 3 origins) x kind in {G: sampler tables/positions/binning over every "
     "sub-size map of the menu, F: all %d programs through the decorator / array_via_func_from / Grid2DOverSampled / "
     "config-driven adaptive scheme, I: iterative scheme over programs x schedules x accuracies x tolerances, each on a "
-    "fresh sampler, followed by call histories f1,f2,f1 on ONE sampler object and on ONE grid through the decorator}; "
+    "fresh sampler, followed by call histories f1,f2,f1 on ONE sampler object and on ONE grid through the decorator; the "
+    "iterate programs include %d functions placed relative to the pixel centres of the case whose BINNED value changes "
+    "sign between successive sub-size levels (paraboloid caps/bowls offset - r^2 around a target pixel, a cosine wave "
+    "minus an offset, and cell-wise caps/bowls giving every pixel of the mask its own sign change)}; "
     "plus kind T = (mask with n unmasked pixels out of 4-5 shapes per n, block of 120 maps): the COMPLETE product of "
     "per-pixel sub-size maps over larger alphabets (up to 1..8), each map through the sampler tables only "
     "(over-sampled grid count/positions/order, slim_for_sub_slim, sub_total, sub-pixel areas and their sum, binning of "
@@ -43,7 +67,7 @@ RULE = (
     "non-trivial = G/F: mask has masked pixels and >= 2 unmasked pixels; I: at least two different stopping levels "
     "were observed among the runs of the case; T: n >= 2 and the block holds non-uniform maps (outcome lists which "
     "aggregate identities of a uniform map - sum of squares = n*first^2 / n*last^2, sum = n*first / n*last, "
-    "first = last - some non-uniform map of the block satisfies by coincidence)" % N_PROGRAMS
+    "first = last - some non-uniform map of the block satisfies by coincidence)" % (N_PROGRAMS, len(SIGN_SMOOTH) + len(SIGN_CELL))
 )
 ASSUMPTIONS = [
     "binning is value-oblivious (a weighted gather), so three labellings (injective signed, adversarial with "
@@ -55,11 +79,23 @@ ASSUMPTIONS = [
     "would change under the uncertainty of the reference level values (spread under +-1e-12 position shifts + 1e-14 "
     "relative + summation rounding), when the ratio lies within 1e-9 of the threshold or |difference| within 1e-9 of "
     "the tolerance, or when a level value is zero only up to rounding (sign of 'previous value positive' undecidable)",
+    "iterative rule, sign changes between levels: the agreement of the statement is the ratio of the smaller to the larger "
+    "VALUE (signed) and exists only for a positive previous value, so a level whose value is negative after a positive "
+    "previous level has a negative ratio and is never accepted however close the magnitudes, and a negative previous "
+    "level accepts nothing; the reference transcribes exactly that (no absolute values, no sign normalisation). The "
+    "level values of offset - r^2 in its own pixel are A*(a - (1 - 1/s^2)) for every geometry, so the menu of offsets a "
+    "(0.1, 0.3, 0.376, 0.37501, 0.445, 0.6, 0.844, 0.85, 0.9245, 1.3) x amplitudes A (1, 0.01) x orientation (cap, "
+    "bowl) puts the sign change at the first or the second comparison of each schedule of the menu with a magnitude "
+    "ratio below 0.5, in [0.5,0.99), [0.99,0.9999) and above 0.9999, with |previous| < |next| and |previous| > |next|, "
+    "with absolute differences above and below the tolerance 0.01 (outcome 'flip[...]' lists the classes the reference "
+    "walked through: '+-hi</>@1/@2' positive->negative with a magnitude ratio that reaches the accuracy, '+-lo' one "
+    "that does not, '-+' negative->positive); none of these ratios is within 1e-9 of a threshold under the statement's "
+    "signed ratio, so no tie band is involved",
     "samplers hold no state between calls by specification: within one case one uniform sampler / one grid serves all "
     "programs and labellings in turn (a mismatch that a fresh sampler does not show is classed "
     "'...:second-call-on-same-sampler' / '...:second-call-on-same-grid'), and one iterative sampler (and one grid with a "
-    "cached iterative sampler) is called with f1, f2, f1 for 4 function pairs chosen so that pixels which stop at an "
-    "intermediate sub-size under one function run to the last sub-size under the other (outcome 'hist-crossK/4' = number "
+    "cached iterative sampler) is called with f1, f2, f1 for 5 function pairs chosen so that pixels which stop at an "
+    "intermediate sub-size under one function run to the last sub-size under the other (outcome 'hist-crossK/5' = number "
     "of pairs for which the reference stopping levels show such a pixel); each result must equal bitwise the value a "
     "fresh sampler returned (which is itself checked against the reference), so tie bands do not matter here",
     "the two step-valued programs (indic, quant) are skipped for a (geometry, map) when a sub-pixel centre lies within "
@@ -75,8 +111,9 @@ ASSUMPTIONS = [
     "sum of squares = n*first^2)",
     "program count: %d distinct functions = 27 affine a*y+b*x+c (a,b,c in {-1,0,2}; includes 3 constants) + %d "
     "non-linear (y*x, |x|, 2 Gaussians, 2 half-plane-zero ReLUs, 2 negative-valued, sin*cos, peaked 1/(0.1+r^2), r); "
-    "each is also called through 3 method styles (bare self-named, bare obj-named, stacked on to_array)"
-    % (N_PROGRAMS, len(NONLIN)),
+    "each is also called through 3 method styles (bare self-named, bare obj-named, stacked on to_array); the iterative "
+    "scheme runs 14 of them + %d geometry-relative sign-changing programs (%s)"
+    % (N_PROGRAMS, len(NONLIN), len(SIGN_SMOOTH) + len(SIGN_CELL), ", ".join(SIGN_SMOOTH + SIGN_CELL)),
 ]
 BOUNDS = {
     "quick": "masks with <= 9 cells (3187, all shapes incl. 1xN/Nx1) x 12 geometries (4 scale pairs x 3 origins). "
@@ -87,9 +124,11 @@ BOUNDS = {
     "on Grid2D.from_mask / Grid2D(values) / Grid2D.uniform / grid.native, Grid2DOverSampled, array_via_func_from with "
     "and without obj, config-driven adaptive scheme (2 configs)} on geometry #4 for every mask and on geometry #8 for "
     "masks <= 6 cells; cyclic map x {bare decorated method, array_via_func_from} on the other 10 geometries for "
-    "masks <= 6 cells. I: masks <= 6 cells x geometries {#0, #4} x 14 programs x schedules {[2,4],[2,4,8],[3,5,2]} x "
+    "masks <= 6 cells. I: masks <= 6 cells x geometries {#0, #4} x 23 programs (14 of the grammar + 7 smooth sign-changing "
+    "programs centred on the middle unmasked pixel + 2 cell-wise ones over a 12-entry offset/amplitude/orientation menu "
+    "rotated by 0 and 6 cells) x schedules {[2,4],[2,4,8],[3,5,2]} x "
     "fractional accuracies {0.5,0.99,0.9999} x absolute tolerances {None,0.01}, direct call + decorated call; then "
-    "4 pairs (f1,f2) x call history f1,f2,f1 on one OverSamplerIterate and on one Grid2D(OverSamplingIterate) "
+    "5 pairs (f1,f2) x call history f1,f2,f1 on one OverSamplerIterate and on one Grid2D(OverSamplingIterate) "
     "(configs ([2,4,8],0.99), ([2,4,8],0.9999), ([3,5,2],0.99,tol 0.01) rotating over the pairs). "
     "T (tables only, array-form maps): every map in {1..8}^n for n<=4, {1,2,3,4,5}^5, {1,2,4}^6 (8+64+512+4096+3125+729 "
     "maps) on each of 4-5 masks per pixel count n (full row 1xn, full column nx1, and the first / middle / last 3x3 "
@@ -119,11 +158,11 @@ def geoms(seed):
 
 def fun_params(seed):
     if int(seed) == 0:
-        return {"gy": 0.2, "gx": -0.1, "sig": 1.0, "sign": 0.3, "ny": -0.15, "nx": 0.25}
+        return {"gy": 0.2, "gx": -0.1, "sig": 1.0, "sign": 0.3, "ny": -0.15, "nx": 0.25, "ampj": 1.0}
     r = dom.rng(seed, "C09fun")
     u = lambda lo, hi: float(np.round(r.uniform(lo, hi), 3))
     return {"gy": u(-0.3, 0.3), "gx": u(-0.3, 0.3), "sig": u(0.8, 1.2), "sign": u(0.25, 0.4), "ny": u(-0.3, 0.3),
-            "nx": u(-0.3, 0.3)}
+            "nx": u(-0.3, 0.3), "ampj": u(0.8, 1.25)}  # ampj: amplitude of the unit-amplitude sign-changing programs
 
 
 def feval(name, y, x, p):
@@ -153,6 +192,30 @@ def feval(name, y, x, p):
         return 1.0 / (0.1 + y * y + x * x)
     if name == "rad":
         return np.sqrt(y * y + x * x)
+    # programs placed relative to the pixel centres of the case (iterative scheme only; p carries the geometry)
+    if name.startswith("cap:") or name.startswith("bowl:"):
+        kind, alpha, amp = name.split(":")
+        q = (p["sy"] ** 2 + p["sx"] ** 2) / 12.0
+        amp = float(amp) * (p["ampj"] if float(amp) >= 1.0 else 1.0)
+        val = amp * (float(alpha) - ((y - p["cy"]) ** 2 + (x - p["cx"]) ** 2) / q)
+        return val if kind == "cap" else -val
+    if name.startswith("cosb:"):
+        wy, wx = 1.6 * np.pi / p["sy"], 1.6 * np.pi / p["sx"]
+        return np.cos(wy * (y - p["cy"])) * np.cos(wx * (x - p["cx"])) - float(name.split(":")[1])
+    if name.startswith("cell:"):
+        # piecewise: the cell of the frame that holds the point decides centre, orientation, offset and amplitude. Sub-pixel
+        # centres stay >= 1/16 of a pixel away from the cell borders, so the cell of a point is never in doubt.
+        rot = int(name.split(":")[1])
+        iy = np.clip(np.floor((p["top"] - y) / p["sy"]), 0, p["h"] - 1)
+        ix = np.clip(np.floor((x - p["left"]) / p["sx"]), 0, p["w"] - 1)
+        ccy = p["top"] - (iy + 0.5) * p["sy"]
+        ccx = p["left"] + (ix + 0.5) * p["sx"]
+        ent = ((iy * p["w"] + ix).astype(int) + rot) % len(CELL_MENU)
+        menu = np.array(CELL_MENU)
+        sgn, alpha, amp = menu[ent, 0], menu[ent, 1], menu[ent, 2]
+        amp = np.where(amp >= 1.0, amp * p["ampj"], amp)
+        q = (p["sy"] ** 2 + p["sx"] ** 2) / 12.0
+        return sgn * amp * (alpha - ((y - ccy) ** 2 + (x - ccx) ** 2) / q)
     # integer / boolean valued programs (the binned value is still the arithmetic mean). Their jumps sit on curves that the
     # sub-pixel centres of the seed-0 geometries stay > 2e-5 away from; seed-jittered geometries (3-decimal parameters) can
     # put a centre exactly on a jump, so run_F skips such a program for a map when jump_margin() < 1e-7 (tie band).
@@ -857,6 +920,28 @@ def ref_iterate(lv, steps, frac, tol, n):
     return exp, stop
 
 
+def _flip_classes(lv, steps, frac, stop_k, k):
+    """Coverage bookkeeping (outcome string only): which sign changes between successive levels the reference walked
+    through at pixel k before it stopped. '+-' previous positive / next negative, '-+' the opposite order; '@1' the first
+    comparison of the schedule (against sub-size one), '@2' a later one; for '+-' whether the MAGNITUDE ratio
+    min(|prev|,|cur|)/max(|prev|,|cur|) reaches the fractional accuracy ('hi': a rule that ignores signs would accept the
+    level, the statement's ratio smaller/larger is negative and accepts nothing) or not ('lo'), and which is larger."""
+    out = set()
+    prev = float(lv[1][0][k])
+    for idx, s in enumerate(steps[:-1]):
+        if idx > stop_k:
+            break
+        cur = float(lv[s][0][k])
+        at = "@1" if idx == 0 else "@2"
+        if prev > 0 > cur:
+            a, b = abs(prev), abs(cur)
+            out.add("+-%s%s%s" % ("hi" if min(a, b) / max(a, b) >= frac else "lo", "<" if a < b else ">", at))
+        elif prev < 0 < cur:
+            out.add("-+" + at)
+        prev = cur
+    return out
+
+
 def _itol(lv, steps, j, k):
     """Comparison tolerance for the value of schedule entry j at pixel k: relative 1e-9 + 100 x its uncertainty."""
     val, _, _, eps = (lv[steps[j]][i][k] for i in range(4))
@@ -867,7 +952,12 @@ def run_I(aa, v, m, g, gi, seed, t):
     sy, sx, oy, ox = g
     n = int((~m).sum())
     mask = _mk_mask(aa, m, g)
-    par = fun_params(seed)
+    # geometry parameters of the programs that are placed relative to pixel centres (target = the middle unmasked pixel
+    # in slim order), from the reference model of the pixel centres
+    cen = ref.pixel_centres(m, sy, sx, oy, ox)
+    par = dict(fun_params(seed), cy=float(cen[n // 2, 0]), cx=float(cen[n // 2, 1]), sy=sy, sx=sx,
+               top=oy + 0.5 * m.shape[0] * sy, left=ox - 0.5 * m.shape[1] * sx, h=m.shape[0], w=m.shape[1])
+    flips = set()
     P = classes()["P"]
     levels = sorted(set([1] + [s for st in SCHEDULES for s in st]))
     pts_l = {s: ref.sub_grid(m, sy, sx, oy, ox, [s] * n)[0] for s in levels}
@@ -926,6 +1016,7 @@ def run_I(aa, v, m, g, gi, seed, t):
                     nskip += 1
                     continue
                 seen_levels.add(stop[k] if stop[k] < len(steps) - 1 else "last")
+                flips.update(_flip_classes(lv, steps, frac, stop[k], k))
                 okk = abs(got[k] - exp[k]) <= _itol(lv, steps, stop[k], k)
                 if okk:
                     v.ok(True, "iterate:stopping-rule")
@@ -993,6 +1084,7 @@ def run_I(aa, v, m, g, gi, seed, t):
     total = n * len(IT_PROGRAMS) * len(configs)
     frac_skip = nskip / float(total)
     bucket = "" if nskip == 0 else (":skip<2%" if frac_skip < 0.02 else (":skip<10%" if frac_skip < 0.1 else ":skip>=10%"))
-    v.outcome = "I:n%d:levels=%s%s%s%s" % (n, ",".join(str(s) for s in sorted(seen_levels, key=str)),
-                                          bucket, ":zero-shortcut" if shortcut else "",
-                                          ":hist-cross%d/%d" % (hist_cross, len(HIST_PAIRS)))
+    v.outcome = "I:n%d:levels=%s%s%s%s:flip[%s]" % (n, ",".join(str(s) for s in sorted(seen_levels, key=str)),
+                                                   bucket, ":zero-shortcut" if shortcut else "",
+                                                   ":hist-cross%d/%d" % (hist_cross, len(HIST_PAIRS)),
+                                                   ",".join(sorted(flips)))
